@@ -275,6 +275,21 @@ fn run_model(dict: &Dict, ops: &[Op], d: u64, idle: u64, smart: &str) -> Model {
                         altgr = true;
                         continue;
                     }
+                    // the user's own backspace: zippychord does not look at it; it removes what is
+                    // in front of the cursor - a smart space included, which is then gone
+                    "BSpace" => {
+                        if m.text.pop().is_none() {
+                            // (erases text typed before the session: outside of what is modelled)
+                            m.ambiguous = Some("user backspace on empty text");
+                            return m;
+                        }
+                        smart_sent = false;
+                        // ... and what an earlier activation typed is no longer known to be in
+                        // front of the cursor: no follow-up chord refers to it any more
+                        chain = None;
+                        chain_armed = false;
+                        continue;
+                    }
                     _ => {}
                 }
                 let slack = 3;
@@ -456,6 +471,8 @@ fn run_model(dict: &Dict, ops: &[Op], d: u64, idle: u64, smart: &str) -> Model {
                         altgr = false;
                         continue;
                     }
+                    // (zippychord does not look at the user's backspace at all)
+                    "BSpace" => continue,
                     _ => {}
                 }
                 let slack = 3;
@@ -821,6 +838,15 @@ impl Prop for C20 {
                 // neutral typing / sequential typing of chord keys
                 let n = r.range(1, 4);
                 for _ in 0..n {
+                    if r.chance(100) {
+                        // the user's own backspace
+                        let bs = oscode_of("bspc");
+                        ops.push(Op::Press(bs));
+                        ops.push(Op::Gap(r.range(1, 4) as u32));
+                        ops.push(Op::Release(bs));
+                        ops.push(Op::Gap(r.range(1, 6) as u32));
+                        continue;
+                    }
                     let k = if r.chance(700) { *r.pick(&neutral) } else { *r.pick(&chord_keys) };
                     ops.push(Op::Press(code(k)));
                     ops.push(Op::Gap(r.range(1, 4) as u32));
@@ -828,7 +854,14 @@ impl Prop for C20 {
                     ops.push(Op::Gap(r.range(1, 6) as u32));
                 }
             } else if roll < 90 {
-                // punctuation right away
+                // punctuation right away, sometimes after the user's own backspace
+                if r.chance(250) {
+                    let bs = oscode_of("bspc");
+                    ops.push(Op::Press(bs));
+                    ops.push(Op::Gap(2));
+                    ops.push(Op::Release(bs));
+                    ops.push(Op::Gap(r.range(1, 6) as u32));
+                }
                 let p = *r.pick(&['.', ',', ';']);
                 ops.push(Op::Press(code(p)));
                 ops.push(Op::Gap(2));
@@ -874,7 +907,7 @@ impl Prop for C20 {
         for op in &case.ops {
             if let Op::Press(c) = op {
                 let k = code_name(*c);
-                let ok = k.len() == 1 || k.starts_with("Kb") || matches!(k.as_str(), "Space" | "Dot" | "Comma" | "SColon" | "LShift" | "RShift" | "RAlt");
+                let ok = k.len() == 1 || k.starts_with("Kb") || matches!(k.as_str(), "Space" | "Dot" | "Comma" | "SColon" | "LShift" | "RShift" | "RAlt" | "BSpace");
                 if !ok {
                     return RunOut::skip("history-shape-not-of-this-population");
                 }
